@@ -126,6 +126,11 @@ func genC03Plan(r *sim.Rng, tier string) AdmPlan {
 			pl.Ops = append(pl.Ops, AdmOp{Kind: "advance", Ms: 100 + r.Intn(2500)})
 		case 1:
 			pl.Ops = append(pl.Ops, AdmOp{Kind: "stat"})
+		case 2:
+			if r.Bool(0.5) {
+				// a kick that names no live session of the stream: an id that has ended, or one that never existed
+				pl.Ops = append(pl.Ops, AdmOp{Kind: "kick_stale", Stream: r.Intn(pl.Streams), N: r.Intn(64)})
+			}
 		}
 	}
 	return pl
@@ -334,6 +339,23 @@ func CheckC03(k *sim.Kernel, ar *AdmRun) {
 		}
 		F := ar.forwardable(a.Plan.Stream)
 		JudgeConsumer(k, "C03", fmt.Sprintf("sub%d(%s)", i, a.Sub.Plan.Proto), a.Sub, F, ar.Plan.Conf)
+	}
+	// ---- start_relay_pull while another input is accepted (for the whole duration of the call) reports failure
+	for _, pr := range ar.PullApi {
+		if pr.Kind != "start_pull" || !pr.Result.Done || pr.Result.ErrorCode() != 0 {
+			continue
+		}
+		for _, at := range ar.Attempts {
+			if at.Stream == pr.Stream && at.Known && at.Accepted && at.RetStep >= 0 && at.RetStep < pr.SentStep && (at.RelCall < 0 || at.RelCall > pr.Step) && at.Kind != "pull" {
+				k.Violate("C03.api-start-with-input", "start_relay_pull for %s sent at step %d answered error_code=0 although %s attempt #%d had been accepted at step %d and was not released before step %d", StreamName(pr.Stream), pr.SentStep, at.Kind, at.ID, at.RetStep, pr.Step)
+			}
+		}
+	}
+	// ---- a kick that names no live session changes nothing and says so
+	for _, pr := range ar.PullApi {
+		if pr.Kind == "kick_stale" && pr.Result.Done && pr.Result.ErrorCode() == 0 {
+			k.Violate("C03.kick-stale-succeeded", "kick_session with an id that names no live session of the stream (%s) answered error_code=0", pr.Note)
+		}
 	}
 	// ---- stat API never lists a detached session
 	for _, sr := range ar.Stats {
